@@ -77,6 +77,9 @@ class SimSocket(object):
         if self.err:
             e, self.err = self.err, 0
             raise SockError(e, 'send error')
+        if self.state == 'connecting':
+            # Linux: a non-blocking send on a socket whose connect is still in progress returns EAGAIN
+            raise SockError(_errno.EAGAIN, 'Resource temporarily unavailable')
         if self.state != 'connected':
             raise SockError(_errno.ENOTCONN, 'not connected')
         free = self.cap - len(self.out)
